@@ -293,6 +293,23 @@ PROPS["C11"] = dict(
     note="Trusted: SQLite, posixpath, solvers, pyvc.",
 )
 
+PROPS["C17"] = dict(
+    modules=["contracts.C18_under", "contracts.C08_claims", "contracts.C04_noop", "contracts.C17_bounded"],
+    decided=["rescan_nglobs persists a registration only if the fresh scan of its own pattern and substitutions differs from "
+             "its recorded matches (match sets as an abstract sort with extensionality)", "_raise_if_glob_match tests every "
+             "attached registration's stored regular expression with fullmatch against every product path (C08)",
+             "register_nglob records the registration exactly once and only when no recorded match is an attached product "
+             "(C08)"],
+    undecided=["the two compilers (convert_nglob_to_regex, convert_nglob_to_glob) and the match-set algebra of NamedGlob "
+               "(extend / reduce / will_change over a dict of sets): bounded stand-in only", "the regular expression engine"],
+    assumptions=["glob.iglob, re"],
+    level="The wiring of glob registrations into the workflow is under contract (C08, C04); the pattern compilers, which are "
+          "string automata with stateful merging, are outside the VC generator and are compared exhaustively on small "
+          "patterns and trees with the standard glob, with a reference matcher written from the property, and with a "
+          "rescan after incremental updates (bounded, on the real code and the real file system).",
+    note="Trusted: glob, re, os, solvers, pyvc.  Finding F7 known; F9 fixed.",
+)
+
 NOT_BUILT = {}
 
 _loaded = False
